@@ -228,6 +228,42 @@ fn diff(what: &str, got: &[Event], want: &[Event]) -> CheckResult {
     ))
 }
 
+fn le_int(bytes: &[u8]) -> u128 {
+    bytes.iter().rev().fold(0u128, |acc, b| (acc << 8) | *b as u128)
+}
+
+/// The context part of the public-coin seed as documented (air: TraceInfo / ProofOptions / Context
+/// `to_elements`), computed from the statement and the options the harness chose — not from the proof:
+/// [main width | #aux segments (| aux width | #aux rands)], trace length, the metadata in chunks of
+/// ELEMENT_BYTES - 1 bytes (little-endian, zero padded), the two halves of the modulus' little-endian
+/// bytes, [extension code | folding factor | remainder max degree], grinding, blowup, queries.
+pub fn ref_context_elements(fp: &vf_ref::Fp, desc: &Desc, o: &RealOpts) -> Vec<u128> {
+    let mut v = vec![];
+    let mut first = desc.width() as u128;
+    match &desc.aux {
+        None => first <<= 8,
+        Some(a) => {
+            first = (first << 8) | 1;
+            first = (first << 8) | a.width() as u128;
+            first = (first << 8) | a.num_rands as u128;
+        },
+    }
+    v.push(first);
+    v.push(desc.n() as u128);
+    for chunk in desc.meta.chunks(fp.elem_bytes - 1) {
+        v.push(le_int(chunk));
+    }
+    let m = fp.p.to_le_bytes();
+    let m = &m[..fp.elem_bytes];
+    v.push(le_int(&m[..fp.elem_bytes / 2]) % fp.p);
+    v.push(le_int(&m[fp.elem_bytes / 2..]) % fp.p);
+    v.push(((o.ext as u128) << 16) | ((o.folding as u128) << 8) | o.rem_deg as u128);
+    v.push(o.grinding as u128);
+    v.push(o.blowup as u128);
+    v.push(o.queries as u128);
+    v
+}
+
 fn transcript_one<B: FA, H: ElementHasher<BaseField = B> + Send + Sync>(c: &TCase, tier: Tier, obs: &mut Obs) -> CheckResult {
     let inst = realize::<B>(&c.shape, tier.pick(1 << 16, 1 << 19));
     for l in &inst.labels {
@@ -262,6 +298,17 @@ fn transcript_one<B: FA, H: ElementHasher<BaseField = B> + Send + Sync>(c: &TCas
         VerifyOutcome::Ok => {},
         VerifyOutcome::Err(e) => return Err(Fail::new("verify/rejected", format!("honest proof rejected: {e}"))),
         VerifyOutcome::Panic(p) => return Err(Fail::new(format!("verify/{}", p.key()), p.msg)),
+    }
+    // the seed's context part, by the documented layout and from the harness' own inputs
+    {
+        let lib: Vec<u128> = ToElements::<B>::to_elements(&proof.context).iter().map(|e| e.to_u128()).collect();
+        let want = ref_context_elements(&B::FP, &desc, &inst.opts);
+        if lib != want {
+            return Err(Fail::new(
+                "seed/context-elements-differ-from-documented-layout",
+                format!("Context::to_elements gives {lib:?}, the documented layout gives {want:?} (metadata of {} bytes)", desc.meta.len()),
+            ));
+        }
     }
     let (spec, remainder_pos) = match inst.opts.ext {
         1 => derive_spec::<B, H, B>(&proof, &desc)?,
